@@ -66,6 +66,15 @@ theorem c_test_exact (now last : Nat) (h : last ≤ now) :
   have : ((now : Int) - (last : Int) > (INTR : Int)) ↔ now - last > INTR := by omega
   simp [this]
 
+/-- the same without `last ≤ now` (the clock was set back between the two interrupts): the signed C difference is
+    negative, the model's truncated difference is 0, and both are "within INTR_TIME": abort / cancel.  (An UNSIGNED
+    difference would be huge instead: report / stop.) -/
+theorem c_test_any_order (now last : Nat) :
+    decide ((now : Int) - (last : Int) > (INTR : Int)) = past now last := by
+  unfold past
+  have : ((now : Int) - (last : Int) > (INTR : Int)) ↔ now - last > INTR := by omega
+  simp [this]
+
 /-- ... and narrowing it to `w` bits is harmless exactly as long as the difference itself fits -/
 theorem wrapTo_fits (w : Nat) (hw : 0 < w) (x : Int) (h1 : -(2 ^ (w - 1)) ≤ x) (h2 : x < 2 ^ (w - 1)) :
     wrapTo w x = x := by
